@@ -15,7 +15,7 @@ use tevec::export::arrow::bitmap::Bitmap;
 use tevec::export::arrow::datatypes::ArrowDataType;
 use tevec::export::ndarray::{Array1, ArrayView1, s};
 use tevec::export::polars::prelude::{
-    BooleanChunked, ChunkFullNull, Float32Chunked, Float64Chunked, Int32Chunked, Int64Chunked,
+    BooleanChunked, ChunkFullNull, Float32Chunked, Float64Chunked, Int32Chunked, Int64Chunked, StringChunked,
 };
 use tevec::prelude::*;
 use vh::{Cell, Emitter, Rng, NULL_PATTERNS, null_mask, guarded, coq_f64, coq_list, coq_opt, cells_f64};
@@ -54,6 +54,40 @@ macro_rules! observe {
         }
         c
     }};
+}
+
+/// the hand-written string-array impl (`impl Vec1View<Option<&str>> for &ChunkedArray<StringType>`, polars.rs): same observation
+/// layout as `observe!` (len, get 0..=len, titer, reversed titer, every slice a..b incl. a == b, no slice view); the strings are
+/// decimal numerals so that the cells are those of the numeric arrays.  A mutation campaign found this impl exercised by nothing
+/// (`end < start` -> `<=` in its `slice` survived).
+fn observe_str(ca: &StringChunked) -> Vec<Cell> {
+    let cell = |x: Option<&str>| match x { Some(t) => Cell::F(t.parse::<f64>().unwrap()), None => Cell::Null };
+    let v = &ca;
+    let len = ca.len();
+    let mut c = vec![Cell::Int(len as i128)];
+    for i in 0..=len {
+        match Vec1View::get(v, i) {
+            Ok(x) => c.push(cell(x)),
+            Err(_) => c.push(Cell::Err),
+        }
+    }
+    c.push(Cell::Sep);
+    for x in v.titer() { c.push(cell(x)) }
+    c.push(Cell::Sep);
+    let fw: Vec<Option<&str>> = v.titer().collect();
+    for x in fw.iter().rev() { c.push(cell(*x)) }
+    c.push(Cell::Sep);
+    for a in 0..=len {
+        for b in a..=len {
+            match Vec1View::slice(v, a, b) {
+                Ok(sl) => { let r = &sl; for x in r.titer() { c.push(cell(x)) } }
+                Err(_) => c.push(Cell::Err),
+            }
+            c.push(Cell::Sep);
+        }
+    }
+    c.push(Cell::Null);
+    c
 }
 
 fn ocell(x: Option<f64>) -> Cell { match x { Some(v) => Cell::F(v), None => Cell::Null } }
@@ -346,6 +380,19 @@ fn main() {
             observe_prim!(em, "pl_i64", Int64Chunked, i64, ArrowDataType::Int64, &ichunks);
             observe_prim!(em, "pl_i32", Int32Chunked, i32, ArrowDataType::Int32, &ichunks);
             observe_prim!(em, "pl_f32", Float32Chunked, f32, ArrowDataType::Float32, &ichunks);
+            // strings (the one hand-written chunked impl): decimal numerals, chunk by chunk
+            {
+                let mut ca = StringChunked::full_null("".into(), 0);
+                for ch in ichunks.iter() {
+                    let strs: Vec<Option<String>> = ch.iter().map(|x| x.map(|v| v.to_string())).collect();
+                    let part: StringChunked = strs.iter().map(|x| x.as_deref()).collect();
+                    ca.append(&part).unwrap();
+                }
+                let l: Vec<Vec<Option<f64>>> = ca.downcast_iter().map(|a| a.iter().map(|o| o.map(|t| t.parse::<f64>().unwrap())).collect()).collect();
+                let term = format!("(run_chunked {})", coq_chunks(&l));
+                em.case("exact", &access_tags("pl_str", "chunks", &l), &format!("access be=pl_str chunks={:?}", l), || term.clone(),
+                    || observe_str(&ca));
+            }
             // booleans: values and validity are both bitmaps
             {
                 let ca: BooleanChunked = BooleanChunked::from_chunk_iter("".into(), ichunks.iter().map(|c| {
